@@ -198,7 +198,7 @@ SPEC = {
     'workloads': [
         Workload('spinless', spinless_case, quick=7 * 9 * 2, thorough=9 * 9 * 20),
         Workload('spin', spin_case, quick=5 * 9, thorough=6 * 9 * 8),
-        Workload('gauge', gauge_case, quick=70, thorough=1400),
+        Workload('gauge', gauge_case, quick=70, thorough=2800),
     ],
     'shards': {'quick': 4, 'thorough': 16},
     'watchdog_s': {'quick': 900, 'thorough': 7200},
